@@ -23,7 +23,8 @@ META = dict(
     level_text='Theorems in coq/Properties/Properties_C06.v are stated for Model/Print.v: `decide` (post_has_simple_amount, the count == 2 && index == 2 elision, POST_CALCULATED / ITEM_GENERATED suppression, the @ / @@ choice with the printed per-unit cost |given_cost / amount|, state marks, bare 0 for a display-zero amount, read_back = amount_t::print then amount_t::parse at display precision with zero trimming), `reread` (what parse_post makes of such a line) followed by Model/Xact.v `finalize`, and `equity_account`. The model is tied to the code by tokenizing ledger\'s print output into the same decision records and by comparing finalize of the original and of the re-read printed text (exact rationals via the verif_rational hook).',
     level_note='Trusted: Coq kernel; the MPFR display rounding model Base/Round.v (validated by C04); extraction/driver/harness for the correspondence. Of the layout only the rule that separates account and amount is modelled (account column = max(36, longest printed name), amount right-justified in 12, gap topped up to two blanks; account_width / sep_blanks / posting_blanks, theorem print_separates_account_and_amount) and compared with the raw bytes of every printed posting line; note placement and blank lines are covered by the byte-identity oracle print(print J) == print J only. Amount text <-> amount value is C04\'s subject (AmountText.v); here an amount is printed as the value the reader gets back (read_back). Not modelled: amount expressions `(expr)`, --generated, automated/periodic transactions in print, metadata set programmatically (print.cc:172-183), value-expression annotations, commodity styles beyond prefix/suffix, the iteration order of accounts in equity. Known findings still listed: F8 (zero amount printed as bare 0), F29 (re-read rejected after the commodity precision grew), F30 (equity rounds an inferred amount to display precision), F31 (all-zero transaction not printed). Repaired in /repo and now enforced as violations by the oracle: virtual-pair elision (bcb53b0, old F7), posting mark under a marked transaction (294def6, old F27), zero amount with a per-unit cost (c386080, old F28).',
     design_ref='DESIGN.md section 7 C06',
-    assumptions=['journals accepted by ledger (a journal with any error is outside the quantifier; erroneous transactions are dropped by the generator)',
+    assumptions=['the posting finalize infers for a single posting under a bucket directive is part of every comparison (rows with states, print decisions, layout)',
+                 'journals accepted by ledger (a journal with any error is outside the quantifier; erroneous transactions are dropped by the generator)',
                  'commodities $ EUR AAA BBB CCC without thousands marks or decimal comma (C04 covers styles)',
                  'payees start with x<N>; account, payee, code and note text avoid `|`, `[`, a leading `(`/`[` and two consecutive blanks before `;`',
                  'balance assignments only on dedicated accounts whose running total the generator tracks',
@@ -94,12 +95,17 @@ class XPost(X.Post):
             s += '  ; ' + self.note
         return s
 
+    root = None                           # `apply account ROOT` around the journal: ledger sees ROOT:acct
+
+    def full(self):
+        return (self.root + ':' if self.root else '') + self.acct
+
     def model_amt(self):
         return self.computed if (self.amt is None and self.computed is not None) else self.amt
 
     def sx(self):
         ma = self.model_amt()
-        return ['post', self.acct.encode(), self.kind,
+        return ['post', self.full().encode(), self.kind,
                 ma.sx((self.key() if self.amt is not None else ma.sym)) if ma else '-',
                 [self.cost[0], self.cvirt] + self.cost[1].sx() if self.cost else '-',
                 self.lot.sx() if self.lot else '-',
@@ -132,6 +138,30 @@ class XXact:
 
     def nulls(self):
         return [p for p in self.posts if p.amt is None and p.computed is None and p.must_balance()]
+
+    bucket = None                         # the journal's bucket account (local name), if a bucket directive is in force
+
+    def printed_posts(self):
+        """the postings print writes a line for: the written ones, and the balancing posting finalize infers for a single
+        posting under a bucket directive (it takes over the state of the posting it balances)"""
+        if self.bucket and len(self.posts) == 1 and self.posts[0].kind != 'V' and self.posts[0].amt is not None:
+            b = XPost(self.bucket, 'R', None, mark=self.posts[0].mark)
+            b.root = self.posts[0].root
+            return self.posts + [b]
+        return self.posts
+
+
+class Journal(list):
+    """the transactions plus the directives around them"""
+    bucket, bstyle, root = None, 0, None
+
+    def derive(self, xs):
+        j = Journal(xs)
+        j.bucket, j.bstyle, j.root = self.bucket, self.bstyle, self.root
+        return j
+
+    def full_bucket(self):
+        return None if not self.bucket else (self.root + ':' if self.root else '') + self.bucket
 
 
 def upgrade(x):
@@ -403,12 +433,37 @@ def gen_xact(rng, st):
     return x
 
 
+def gen_single(rng, st):
+    """a transaction with ONE posting, to be balanced against the bucket account: `*`/`!` on the header or on the posting,
+    a plain or [balanced] posting (a (virtual) one needs no balancing), sometimes with a cost"""
+    kind = 'R' if rng.random() < 0.8 else rng.choice(['B', 'B', 'V'])
+    s = rng.choice(list(X.COMMS))
+    a = X.Amt.rand(rng, s, X.COMMS[s][1])
+    if rng.random() < 0.4:
+        a = a.neg()
+    cost = None
+    if rng.random() < 0.2:
+        y = rng.choice([c for c in X.COMMS if c != s])
+        cost = (rng.choice(['u', 't']), X.Amt(F(rng.randrange(1, 99999), 100), 2, y))
+    x = decorate(rng, XXact([XPost(X.acct_of(rng, kind), kind, a, cost)]))
+    x.state = rng.choice(['*', '*', '!', '!', ''])
+    x.posts[0].mark = rng.choice(['', '', '', '*', '!'])
+    return x
+
+
 def gen_journal(rng):
     st = dict(asg={})
-    xs = []
+    xs = Journal()
+    if rng.random() < 0.3:
+        xs.bucket = rng.choice(['Assets:Checking', 'Assets:My Bucket', 'Equity:Bücket & co'])
+        xs.bstyle = rng.randrange(len(X.BUCKET_STYLES))
+        xs.root = rng.choice([None, None, 'Root', 'Personal:Y 2021'])
     for _ in range(rng.randrange(3, 11)):
         st.pop('asg_next', None)
-        x = gen_xact(rng, st)
+        x = gen_single(rng, st) if (xs.bucket and rng.random() < 0.35) else gen_xact(rng, st)
+        x.bucket = xs.bucket
+        for p in x.posts:
+            p.root = xs.root
         xs.append(x)
         if 'asg_next' in st:
             x.asg = st['asg_next']
@@ -417,11 +472,14 @@ def gen_journal(rng):
 
 
 def render(xs):
+    if getattr(xs, 'bucket', None) or getattr(xs, 'root', None):
+        return X.render_journal(xs, bucket=xs.bucket, root=xs.root, bucket_style=xs.bstyle)
     return '\n'.join(x.text(i) for i, x in enumerate(xs))
 
 
 def journal_sx(jid, xs):
-    return lib.sx(['journal', jid, ['bucket', '-']] + [x.sx() for x in xs])
+    b = xs.full_bucket() if isinstance(xs, Journal) else None
+    return lib.sx(['journal', jid, ['bucket', b.encode() if b else '-']] + [x.sx() for x in xs])
 
 
 # ------------------------------------------------------------------------------------ reading ledger's output
@@ -593,7 +651,7 @@ def measure_line(line, p):
     mark = ''
     if body.startswith(('* ', '! ')):
         mark, body = body[:2], body[2:]
-    name = {'R': '%s', 'V': '(%s)', 'B': '[%s]'}[p.kind] % p.acct
+    name = {'R': '%s', 'V': '(%s)', 'B': '[%s]'}[p.kind] % p.full()
     if not body.startswith(name):
         return (False, 0, 0, 0, False)
     rest = body[len(name):]
@@ -682,6 +740,8 @@ def features(x):
     f = set()
     if len(x.posts) == 2:
         f.add('two-postings')
+    if len(x.posts) == 1 and x.bucket:
+        f.add('bucket-single%s%s' % ('-marked-header' if x.state else '', '-marked-posting' if x.posts[0].mark else ''))
     for p in x.posts:
         if p.cost:
             f.add('cost-' + p.cost[0] + ('-virtual' if p.cvirt else ''))
@@ -756,7 +816,7 @@ def accepted_journal(ctx, rng, j):
         # an assignment account's running total changes when one of its transactions goes away: drop the later ones too
         accts = set(getattr(xs[i], 'asg', (None,))[0] for i in bad) - {None}
         first_bad = min(bad)
-        xs = [x for i, x in enumerate(xs) if i not in bad and not (i > first_bad and getattr(x, 'asg', (None,))[0] in accts)]
+        xs = xs.derive([x for i, x in enumerate(xs) if i not in bad and not (i > first_bad and getattr(x, 'asg', (None,))[0] in accts)])
         if not xs:
             return None
     return None
@@ -768,7 +828,8 @@ ROW_FIELDS = ['payee', 'acct', 'virtual', 'date', 'aux', 'cleared', 'pending', '
 def classify_row_diff(field, a, b, x=None, k=None):
     """a specific, stable key for a difference between an original row and the re-read one"""
     if field in ('cleared', 'pending'):
-        p = x.posts[k] if (x is not None and k is not None and k < len(x.posts)) else None
+        pp = x.printed_posts() if x is not None else []
+        p = pp[k] if (k is not None and k < len(pp)) else None
         if p is not None and x.state and p.mark and p.mark != x.state:
             return 'reread-rows:posting-state-lost-under-marked-xact'
         return 'reread-rows:state'
@@ -828,9 +889,9 @@ def run_one(ctx, res, j, xs, text, path, out_reg, model, layout_cases, idem_case
     # exactly the written number and commodity - whatever finalize made of the posting's cost (lot basis, gain/loss)
     for i, x in enumerate(xs):
         tl = toks.get(i)
-        if tl is None or len(tl) != len(x.posts):
+        if tl is None or len(tl) != len(x.printed_posts()):
             continue
-        for k, (t, p) in enumerate(zip(tl, x.posts)):
+        for k, (t, p) in enumerate(zip(tl, x.printed_posts())):
             shown = t.split('|')[5]
             if p.cost is None or p.amt is None:
                 want = '-'
@@ -857,10 +918,11 @@ def run_one(ctx, res, j, xs, text, path, out_reg, model, layout_cases, idem_case
     pad_lines = []
     for i, x in enumerate(xs):
         ls = plines.get(i)
-        if ls is None or len(ls) != len(x.posts):
+        pps = x.printed_posts()
+        if ls is None or len(ls) != len(pps):
             continue
-        meas = [measure_line(l, p) for l, p in zip(ls, x.posts)]
-        for (okn, nlen, blanks, alen, sep), l, p in zip(meas, ls, x.posts):
+        meas = [measure_line(l, p) for l, p in zip(ls, pps)]
+        for (okn, nlen, blanks, alen, sep), l, p in zip(meas, ls, pps):
             if not okn:
                 res.violations.append(dict(key='print-line:account-name', desc='x%d: the line %r does not show the account %r' % (i, l, p.acct),
                                            case=dict(journal=text, printed=Ptext, xact=i), observed=l, required=p.acct))
@@ -870,9 +932,9 @@ def run_one(ctx, res, j, xs, text, path, out_reg, model, layout_cases, idem_case
                                            case=dict(journal=text, printed=Ptext, xact=i), observed=l,
                                            required='account name, then at least two blanks or a tab, then the amount'))
         if all(m[0] for m in meas):
-            layout_cases.append(('%sx%d' % (jid, i), [(m[1], m[3], p.amt is None and p.computed is None) for m, p in zip(meas, x.posts)],
+            layout_cases.append(('%sx%d' % (jid, i), [(m[1], m[3], p.amt is None and p.computed is None) for m, p in zip(meas, pps)],
                                  [m[2] for m in meas], x.text(i), ls))
-            pad_lines += [('%sx%d' % (jid, i), k) for k, (m, p) in enumerate(zip(meas, x.posts)) if m[3] == 0 and not (p.amt is None and p.computed is None)]
+            pad_lines += [('%sx%d' % (jid, i), k) for k, (m, p) in enumerate(zip(meas, pps)) if m[3] == 0 and not (p.amt is None and p.computed is None)]
             w = max([36] + [m[1] for m in meas])
             for m in meas:
                 gap = (w - m[1]) + (max(0, 12 - m[3]) if m[3] else 0)
@@ -954,7 +1016,7 @@ def run_one(ctx, res, j, xs, text, path, out_reg, model, layout_cases, idem_case
                     va, vb = ra[fld], rb[fld]
                     if (va and va[:2]) != (vb and vb[:2]):
                         # an amount computed from a balance assignment need only agree to display precision
-                        asg = any(p.assigned is not None and p.amt is None and p.acct == ra['acct'] for p in x.posts)
+                        asg = any(p.assigned is not None and p.amt is None and p.full() == ra['acct'] for p in x.posts)
                         if asg and va and vb and va[0] == vb[0] and abs(va[1] - vb[1]) * 2 <= F(1, 10 ** X.COMMS.get(va[0], ('', 2))[1]):
                             continue
                         res.violations.append(dict(key=classify_row_diff('amt', va, vb) if fld == 'amt' else
@@ -1049,7 +1111,9 @@ def run_equity(ctx, res, j, xs, text, path, rows, eq_cases):
                 continue
             base = (r['amt'][0] or '').split('~')[0]
             per.setdefault(r['acct'], []).append([r['amt'][1].numerator, r['amt'][1].denominator, r['amt'][2], base.encode()])
-            kinds[r['acct']] = 'V' if r['acct'].startswith('V:') else 'B' if r['acct'].startswith('BV:') else 'R'
+            root = getattr(xs, 'root', None)
+            local = r['acct'][len(root) + 1:] if (root and r['acct'].startswith(root + ':')) else r['acct']
+            kinds[r['acct']] = 'V' if local.startswith('V:') else 'B' if local.startswith('BV:') else 'R'
     impl = {}
     toks = tokenize_print(Q.decode('utf-8', 'replace').replace('Opening Balances', 'x0 Opening Balances', 1))
     if len(toks.get(0, [])) <= 2:
@@ -1072,7 +1136,7 @@ def run(ctx, n_override=None):
     res.rule = ('accepted journals of 3-10 transactions: two-posting shapes around the elision (real, [balanced], (virtual) pairs, '
                 'different written precision, equal lots, first/second elided in the source, costs, implied rate, zero amounts), exactly '
                 'balanced multi-commodity transactions with @/@@/(@) costs and virtual postings, one elided amount, excess-precision per-unit '
-                'costs at the half-unit boundary, lot sales with {price} [date] (tag), postings with both a lot price and a written cost (@ / @@ / (@) / (@@), equal to or different from lot price x quantity, sales and purchases), balance assignments/assertions, `0 X @ price`; '
+                'costs at the half-unit boundary, lot sales with {price} [date] (tag), postings with both a lot price and a written cost (@ / @@ / (@) / (@@), equal to or different from lot price x quantity, sales and purchases), balance assignments/assertions, `0 X @ price`; in 30% of the journals a bucket directive (`A`, `bucket`, `account` + `default`; a third of them inside `apply account ROOT`) with single-posting transactions marked `*`/`!` on the header and/or the posting, real, [balanced] or (virtual), with or without a cost; '
                 'account names of 30..45 characters placed around the account column of print (column-3 .. column+0, the longest at the column) with amounts of 9..14 and more characters, so that every gap 0..3 between name and amount occurs; decorated with states on transactions and postings (also a posting mark that differs from the mark of its transaction), codes, auxiliary dates, notes, tags, key: value metadata and unusual '
                 'payee/account text; non-trivial = a transaction with at least one such feature in a journal whose printed text re-reads; '
                 'distinct by rendered transaction text')
